@@ -392,6 +392,45 @@ def source_facts(prop, wd):
     return {"ok": True, "lemmas": nlem, "group": group, "log": ""}
 
 
+# ---------------------------------------------------------------- the same cases in another process environment
+
+ENV_OTHER = {"LC_ALL": "C", "LANG": "C", "LANGUAGE": "C", "PYTHONUTF8": "0", "PYTHONCOERCECLOCALE": "0", "VERIF_BARE": "1",
+             "PYTHONWARNINGS": "error::DeprecationWarning,error::FutureWarning,error::PendingDeprecationWarning"}
+
+
+def fname(path):
+    """the path a harness module hands to the library.  In the second process (VERIF_BARE) it is a bare file name
+    relative to the working directory, as a user working inside the folder would give it."""
+    if os.environ.get("VERIF_BARE") and os.path.isdir(os.path.dirname(path)):
+        os.chdir(os.path.dirname(path))
+        return os.path.basename(path)
+    return path
+
+
+def env_pass(prop, wd, cases, results, limit):
+    """run a spread of the cases again under ENV_OTHER with python -O (harness/envpass.py); returns (ran, [(index, got)])"""
+    from . import envpass
+    n = len(cases)
+    if n == 0:
+        return 0, [], {}
+    step = max(1, n // limit)
+    idx = list(range(0, n, step))[:limit]
+    out = os.path.join(wd, "envpass.out.json")
+    job = {"prop": prop, "cases": [cases[i] for i in idx],
+           "results": [envpass.norm(json.loads(json.dumps(results[i], default=str))) for i in idx], "out": out}
+    jf = os.path.join(wd, "envpass.job.json")
+    with open(jf, "w", encoding="utf-8") as fh:
+        json.dump(job, fh)
+    env = dict(os.environ, **ENV_OTHER)
+    p = subprocess.run([sys.executable, "-O", "-m", "harness.envpass", jf], cwd=VERIF, env=env,
+                       stdout=subprocess.PIPE, stderr=subprocess.STDOUT, text=True, timeout=3600)
+    if p.returncode != 0 or not os.path.exists(out):
+        return 0, [(idx[0], {"raised": "the second process failed: " + p.stdout[-600:]})], {}
+    with open(out, encoding="utf-8") as fh:
+        res = json.load(fh)
+    return res["ran"], [(idx[d["k"]], d["got"]) for d in res["diffs"]], {"debug": res["debug"], "encoding": res["encoding"]}
+
+
 # ---------------------------------------------------------------- findings
 
 def load_findings(prop):
